@@ -327,3 +327,15 @@ func Exec(n int, c abs.OpCase, unit time.Duration, decorate bool) []abs.OpEvent 
 	}
 	return evs
 }
+
+// SameExceptTimes reports whether two lists are deeply equal once every cue's start and end are disregarded.
+func SameExceptTimes(a, b *astisub.Subtitles) bool {
+	x := DeepCopy(a).(*astisub.Subtitles)
+	y := DeepCopy(b).(*astisub.Subtitles)
+	for _, s := range []*astisub.Subtitles{x, y} {
+		for _, it := range s.Items {
+			it.StartAt, it.EndAt = 0, 0
+		}
+	}
+	return reflect.DeepEqual(x, y)
+}
